@@ -27,13 +27,17 @@ def h64(b):
     if isinstance(b, str): b = b.encode()
     return int.from_bytes(hashlib.sha1(b).digest()[:8], "big")
 
-def tensor_snap(t):
+def tensor_snap(t, layout=True):
+    """layout=True (snapshots of the caller's own objects before/after a call): strides and offset are part of
+    the snapshot.  layout=False (digests of RESULTS, which are compared with the result for an independently
+    rebuilt equal grammar whose cloned weights are contiguous): values, shape, dtype, flags only -- a result
+    that carries the caller's expanded (stride-0) weights over is not a different result."""
     import torch
     if t is None: return "None"
     if hasattr(t, "physical"):
-        return "PT(%s|%r|%r|%s)" % (tensor_snap(t.physical), t.default, [e.numel() for e in t.vaxes], repr(t.vaxes) if False else len(t.paxes))
+        return "PT(%s|%r|%r|%s)" % (tensor_snap(t.physical, layout), t.default, [e.numel() for e in t.vaxes], repr(t.vaxes) if False else len(t.paxes))
     d = t.detach()
-    return "T(%s|%s|%s|%s|rg=%s|grad=%s|%s)" % (tuple(d.shape), d.stride(), d.storage_offset(), d.dtype, t.requires_grad, t.grad is not None,
+    return "T(%s|%s|%s|%s|rg=%s|grad=%s|%s)" % (tuple(d.shape), d.stride() if layout else "-", d.storage_offset() if layout else "-", d.dtype, t.requires_grad, t.grad is not None,
                                                hashlib.sha1(d.contiguous().cpu().numpy().tobytes()).hexdigest())
 
 def deep_lines(root):
@@ -115,7 +119,7 @@ def graph_snap(g, idmap):
     edges = [(nid(e), e.label.name, e.label.is_terminal, [nid(n) for n in e.nodes]) for e in g.edges()]
     return repr((nodes, edges, [nid(n) for n in g.ext], sorted(x.name for x in g.node_labels()), sorted(x.name for x in g.edge_labels())))
 
-def hrg_snap(h, with_interp=True):
+def hrg_snap(h, with_interp=True, layout=True):
     idmap = {}
     parts = [h.start.name if h.start is not None else "None",
              repr([(l.name, l.is_terminal, [n.name for n in l.type]) for l in h.edge_labels()]),
@@ -126,7 +130,7 @@ def hrg_snap(h, with_interp=True):
         for k, d in h.domains.items():
             parts.append("dom %s %r" % (k, getattr(d, "values", None) if hasattr(d, "values") else d.size()))
         for k, f in h.factors.items():
-            parts.append("fac %s %s" % (k, tensor_snap(f.weights)))
+            parts.append("fac %s %s" % (k, tensor_snap(f.weights, layout)))
     return parts
 
 def user_storages(fgg):
@@ -195,7 +199,7 @@ def result_digest(name, res):
         idmap = {}
         return [h64(r.lhs.name + "->" + graph_snap(r.rhs, idmap)) for r in res]
     if name.startswith("factorize") or name.startswith("conjoin"):
-        return [h64(p) for p in hrg_snap(res, with_interp=hasattr(res, "domains"))]
+        return [h64(p) for p in hrg_snap(res, with_interp=hasattr(res, "domains"), layout=False)]
     if name.startswith("json"):
         return [h64(json.dumps(res, sort_keys=True))]
     return [h64(repr(res))]
